@@ -105,13 +105,16 @@ where crashesAny (T : Table) : TyList → Val → Bool
   | .nil, _ => false
   | .cons t ts, v => crashes T t v || crashesAny T ts v
 
-/-- the same for an arm as written: an INTEGER LITERAL arm (`10 -> …`, flag `true`) additionally converts the scrutinee with
-    `int(…)` before comparing, which raises `ValueError` for a string value; the enum arm `(e: {10})` of the same type does not
-    (observed on the emitted code; string literal arms never raise) -/
+/-- the same for an arm as written: a NON-NEGATIVE INTEGER LITERAL arm (`0 -> …`, `10 -> …`; flag `true`, pattern type `{k}` over
+    `Nat`) additionally wraps the scrutinee in `Nat(…)` before comparing: `Nat.__init__` raises `ValueError` for a NEGATIVE integer
+    ("Nat can't be negative") and for a string (`int('s1')`). The enum arm `(e: {10})` of the same type does not (observed on the
+    emitted code: `f(x: Int) = match x: 0 -> 0; _ -> 1; f(-1)` dies, with `(e: {0})` it prints 1). Negative literal arms are not
+    modelled (not observed): the driver answers out-of-model for them. -/
 def crashesArm (T : Table) (arm : Ty × Bool) (v : Val) : Bool :=
   crashes T arm.1 v ||
     (arm.2 && (match arm.1, v with
-      | .refine b _, .str _ => b == T.iInt || b == T.iNat
+      | .refine b _, .str _ => b == T.iNat
+      | .refine b _, .int i => b == T.iNat && decide (i < 0)
       | _, _ => false))
 
 /-- what the emitted code does with the defect in: `none` = the test of some arm raised before an arm was taken.
